@@ -52,6 +52,7 @@ package roprometheus
 //@ func IncCounterOnSubscription$1$1
 //@   note the subscribe function of IncCounterOnSubscription: one increment, then the source subscribed with the destination itself
 //@   props C19 C09 C14
+//@   binds subscriberCtx destination counter source
 //@   track counter.* source.*
 //@   ensures [one-increment-then-pass-through|C19] trace(counter.Inc(), source.SubscribeWithContext(subscriberCtx, destination))
 //@   ensures [releases-the-source|C14] result == bound_Unsubscribe(res(source.SubscribeWithContext))
@@ -60,6 +61,7 @@ package roprometheus
 //@   note the subscribe function behind every PipeN: the licence is looked up per subscription and only selects which
 //@   note composition is subscribed, with the same context and destination
 //@   props C19 C14
+//@   binds instrumentedPipe stdPipe source
 //@   track call.isPrometheusEnabled call.wrapPipeWithObservability callfn.* p().* wrapPipeWithObservability().*
 //@   ensures [licence-checked-per-subscription|C19] count(call.isPrometheusEnabled) == 1
 //@   ensures [licensed-subscribes-the-instrumented-composition|C19] res(call.isPrometheusEnabled) == true ==> called(call.wrapPipeWithObservability) && arg(call.wrapPipeWithObservability, 1) == instrumentedPipe
